@@ -161,6 +161,47 @@ def run(ctx):
             ctx.count_case((t, "loaded", json.dumps(e2["init"]), json.dumps(ops2)), nontrivial=e2["init"] != e2["logical"])
         dflt = {o["name"]: o["default"] for o in spec[t]["opts"]}
         ctx.count_case((t, json.dumps(ops)), nontrivial=any(dflt.get(n) != v for n, v in e["logical"]))
+    # modules read from files whose options record is SHORTER than the type's record (older files; the shipped fixtures, and
+    # library-written synths with the record cut through the TLV layer), then options beyond the old length are set
+    from .. import fmt
+    shortsrc = [(n, d) for n, d in fmt.fixtures() if n.endswith(".sunsynth")]
+    for t in sorted(spec):
+        if spec[t]["opts"]:
+            chunks = tlv.split(api.Synth(classes[t]()).read())
+            for cut in (1, 2, 4):
+                out, cur = [], None
+                for cid, pl in chunks:
+                    if cid == b"CHNM":
+                        cur = struct.unpack("<I", pl)[0]
+                    if cid == b"CHDT" and cur == spec[t]["options_chnm"] and len(pl) > cut:
+                        pl = pl[:cut]
+                    out.append((cid, pl))
+                shortsrc.append(("%s.record-cut-%d" % (t, cut), tlv.join(out)))
+    for name, data in shortsrc:
+        try:
+            lm = api.read_sunvox_file(io.BytesIO(data)).module
+        except Exception:
+            continue
+        t = lm.mtype if lm is not None else None
+        if t not in spec or not spec[t]["opts"] or getattr(lm, "is_legacy", False):
+            continue            # (a legacy-layout Sampler is written back verbatim: reported under C06 / C16)
+        hi = sorted(spec[t]["opts"], key=lambda o: (o["byte"], o["bit"]))[-3:]
+        for o in hi:
+            if o["exclusive_of"] or any(o["name"] in p_["exclusive_of"] for p_ in spec[t]["opts"]):
+                continue
+            lm2 = api.read_sunvox_file(io.BytesIO(data)).module
+            e3, _, _ = run_case(api, classes, t, [[o["name"], 1 if o["size"] == 1 else 2 ** o["size"] - 1]], base=lm2)
+            events.append(e3)
+            ctx.count_case((name, "short-record", o["name"]), nontrivial=True)
+    # both options of a mutually exclusive pair given as constructor keywords (applied in the class's own order)
+    for t in sorted(spec):
+        order = list(classes[t].options)        # the order in which the constructor applies its keywords
+        for o in spec[t]["opts"]:
+            for pn in o["exclusive_of"]:
+                pair = sorted([o["name"], pn], key=order.index)
+                ek, _, _ = run_case(api, classes, t, [[pair[0], 1], [pair[1], 1]], kwarg=True)
+                events.append(ek)
+                ctx.count_case((t, "kwarg-pair", json.dumps(pair)), nontrivial=True)
     traces = []
     per = 200
     for i in range(0, len(events), per):
